@@ -236,6 +236,9 @@ class XferPeer:
             flink = await self.peer.connect_direct(self.client_host.ip, 60000, 'F', ticket=0)
         except OSError:
             return
+        per_attempt = beh.get('per_attempt') or []
+        if len(ul.f_links) < len(per_attempt):
+            beh = dict(beh, **per_attempt[len(ul.f_links)])      # deviations of this attempt only
         ul.f_links.append(flink)
         flink.send_raw(struct.pack('<I', beh.get('f_ticket', ticket)))
         raw = await flink.read_exactly(8)
